@@ -112,12 +112,23 @@ func (c Conj) has(id string) bool {
 type DNF struct {
 	Cs       []Conj
 	Overflow bool
+	// Extra: further factors; the condition is (Cs) ∧ Extra[0] ∧ Extra[1] ∧ … . Used when
+	// multiplying out would exceed maxConj. Reach conditions are necessary conditions, so
+	// dropping a factor is always sound (it only weakens what can be concluded).
+	Extra []DNF
 }
 
 func dnfTrue() DNF  { return DNF{Cs: []Conj{{}}} }
 func dnfFalse() DNF { return DNF{} }
 
 func (d DNF) String() string {
+	if len(d.Extra) > 0 {
+		parts := []string{DNF{Cs: d.Cs, Overflow: d.Overflow}.String()}
+		for _, e := range d.Extra {
+			parts = append(parts, e.String())
+		}
+		return "(" + strings.Join(parts, ") && (") + ")"
+	}
 	if d.Overflow {
 		return "<overflow>"
 	}
@@ -138,6 +149,21 @@ func (d DNF) String() string {
 const maxConj = 64
 
 func dnfAnd(a, b DNF) DNF {
+	if len(a.Extra) > 0 || len(b.Extra) > 0 || len(a.Cs)*len(b.Cs) > maxConj {
+		// keep factored
+		base := DNF{Cs: a.Cs, Overflow: a.Overflow}
+		var extra []DNF
+		extra = append(extra, a.Extra...)
+		bb := DNF{Cs: b.Cs, Overflow: b.Overflow}
+		if len(base.Cs)*len(bb.Cs) <= maxConj && !base.Overflow && !bb.Overflow {
+			base = dnfAnd(base, bb)
+		} else if !(len(bb.Cs) == 1 && len(bb.Cs[0]) == 0) {
+			extra = append(extra, bb)
+		}
+		extra = append(extra, b.Extra...)
+		base.Extra = extra
+		return base
+	}
 	if a.Overflow || b.Overflow {
 		return DNF{Overflow: true}
 	}
@@ -169,6 +195,8 @@ func dnfAnd(a, b DNF) DNF {
 }
 
 func dnfOr(a, b DNF) DNF {
+	// factors are dropped (sound weakening): (A ∧ E) ∨ B ⇒ A ∨ B
+	a.Extra, b.Extra = nil, nil
 	if a.Overflow || b.Overflow {
 		return DNF{Overflow: true}
 	}
@@ -250,13 +278,18 @@ func dnfSimplify(d DNF) DNF {
 		}
 	}
 	if len(d.Cs) > maxConj {
-		return DNF{Overflow: true}
+		return DNF{Overflow: true, Extra: d.Extra}
 	}
 	return d
 }
 
 // Implies: every conjunct contains an atom satisfying pred (so pred's atom holds whenever d holds).
 func (d DNF) Implies(pred func(*Atom) bool) bool {
+	for _, e := range d.Extra {
+		if e.Implies(pred) {
+			return true
+		}
+	}
 	if d.Overflow || len(d.Cs) == 0 {
 		return false
 	}
@@ -279,6 +312,14 @@ func (d DNF) Implies(pred func(*Atom) bool) bool {
 func (d DNF) Atoms() []*Atom {
 	var out []*Atom
 	seen := map[string]bool{}
+	for _, e := range d.Extra {
+		for _, a := range e.Atoms() {
+			if !seen[a.String()] {
+				seen[a.String()] = true
+				out = append(out, a)
+			}
+		}
+	}
 	for _, c := range d.Cs {
 		for _, a := range c {
 			if !seen[a.String()] {
